@@ -272,10 +272,21 @@ def has_lumi(chs):
     return any(m['type'] == 'lumi' for c in chs for s in c['samples'] for m in s['modifiers'])
 
 
+def binwise_modifiers(chs):
+    """(name, type) -> number of bins, for the modifiers that own one parameter per bin"""
+    out = {}
+    for c in chs:
+        for s in c['samples']:
+            for m in s['modifiers']:
+                if m['type'] in ('staterror', 'shapesys', 'shapefactor'):
+                    out.setdefault((m['name'], m['type']), len(s['data']))
+    return out
+
+
 POILESS = ''          # workspace.json: "poi" is any string; the empty string declares a measurement without a parameter of interest
 
 
-def gen_measurement(rng, name, chs, poi=None):
+def gen_measurement(rng, name, chs, poi=None, binwise=0.0):
     """poi=None: drawn here (a normfactor of the channels, 'mu', or with probability 0.12 POI-less)"""
     nfs = sorted({m['name'] for c in chs for s in c['samples'] for m in s['modifiers'] if m['type'] == 'normfactor'})
     if poi is None:
@@ -294,16 +305,29 @@ def gen_measurement(rng, name, chs, poi=None):
             params.append(p)
     if rng.random() < 0.15:
         params.append({'name': 'unused_%d' % rng.randrange(3), 'inits': [1.0]})
+    # bin-wise modifiers (staterror / shapesys / shapefactor) configured away from the defaults: one entry per bin
+    for (mn, mt), nb in sorted(binwise_modifiers(chs).items()):
+        if rng.random() < binwise and not any(p['name'] == mn for p in params):
+            p = {'name': mn}
+            if rng.random() < 0.7:
+                p['inits'] = [qz(rng.uniform(0.9, 1.1)) for _ in range(nb)]
+            if rng.random() < 0.7:
+                p['bounds'] = [[qz(rng.uniform(0.25, 0.6)), qz(rng.uniform(1.5, 3.0))] for _ in range(nb)]
+            if mt == 'staterror' and rng.random() < 0.6:
+                p['auxdata'] = [qz(rng.uniform(0.95, 1.05)) for _ in range(nb)]
+            if rng.random() < 0.2 or len(p) == 1:
+                p['fixed'] = rng.random() < 0.5
+            params.append(p)
     params.append(copy.deepcopy(LUMI_CFG))        # always present and identical, so that any measurement configures lumi
     rng.shuffle(params)
     return {'name': name, 'config': {'poi': poi, 'parameters': params}}
 
 
-def gen_ws(rng, chnames, mnames, tag='', version='1.0.0'):
-    chs = [gen_channel(rng, n, tag) for n in chnames]
+def gen_ws(rng, chnames, mnames, tag='', version='1.0.0', rich=1.0, binwise=0.0):
+    chs = [gen_channel(rng, n, tag, rich) for n in chnames]
     obs = [{'name': c['name'], 'data': [float(rng.randrange(3, 90)) for _ in range(NBINS[c['name']])]} for c in chs]
     rng.shuffle(obs)
-    return {'channels': chs, 'observations': obs, 'measurements': [gen_measurement(rng, m, chs) for m in mnames], 'version': version}
+    return {'channels': chs, 'observations': obs, 'measurements': [gen_measurement(rng, m, chs, binwise=binwise) for m in mnames], 'version': version}
 
 
 def perturb_channel(rng, c):
@@ -1044,6 +1068,53 @@ def make_group(rng, quick):
     return dict(env=env, ops=ops, tags=tags)
 
 
+def make_sequence_group(rng):
+    """an operation SEQUENCE on one analysis: rename (channels, sometimes modifiers / samples) -> combine with a second workspace that
+    re-uses the old channel names -> prune (channels of the second workspace, and more).  After the rename the names that follow another
+    channel's convention (`staterror_<channel>`, `shp_<channel>_<sample>`, `sf_<channel>`) belong to modifiers living elsewhere, with
+    non-default parameter configs.  Every step is an operation of the group on the document the previous step returned, so each
+    step is compared with the Coq model and the property rules on its own."""
+    import pyhf  # noqa: F401
+    na = rng.choice([1, 1, 2])
+    names = rng.sample(CH_POOL, na + rng.choice([0, 1]))
+    a = gen_ws(rng, names[:na], ['meas'], rich=1.6, binwise=0.8)
+    b = gen_ws(rng, names, rng.choice([['alt'], ['alt'], ['meas']]), rich=1.2, binwise=0.5)
+    if b['measurements'][0]['name'] == 'meas':          # same measurement name: shared parameter names configured identically
+        ma, mb = a['measurements'][0], b['measurements'][0]
+        mb['config']['poi'] = ma['config']['poi']
+        la = {p['name']: p for p in ma['config']['parameters']}
+        mb['config']['parameters'] = [copy.deepcopy(la[p['name']]) if p['name'] in la else p for p in mb['config']['parameters']]
+    env = {'l': a, 'r': b}
+    suffix = rng.choice(['_2018', '_old', 'X'])
+    ren = {'channels': {n: n + suffix for n in names[:na]}}
+    if rng.random() < 0.3:
+        ren.update({k: v for k, v in gen_rename_args(rng, a).items() if k != 'channels'})
+    ops = [dict(op='rename', w='l', args=ren)]
+    hist = ['rename(l, %s)' % json.dumps(ren, sort_keys=True)]
+    r1 = run_op(ops[0], env)
+    if r1['outcome'] == 'ok':
+        env['s1'] = r1['out']
+        same = b['measurements'][0]['name'] == 'meas'
+        join = rng.choice(['outer', 'left outer', 'right outer']) if same else rng.choice(['none', 'outer', 'outer'])
+        first, second = ('s1', 'r') if rng.random() < 0.7 else ('r', 's1')
+        op2 = dict(op='combine', l=first, r=second, join=join, merge=False, validate=True, history=list(hist))
+        ops.append(op2)
+        hist = hist + ['combine(%s, %s, join=%r)' % (first, second, join)]
+        r2 = run_op(op2, env)
+        if r2['outcome'] == 'ok':
+            env['s2'] = r2['out']
+            ops.append(dict(op='prune', w='s2', args={'channels': list(names)}, history=list(hist)))
+            ops.append(dict(op='prune', w='s2', args={'channels': rng.sample(names, rng.randrange(1, len(names) + 1))}, history=list(hist)))
+            extra = gen_prune_args(rng, env['s2'])
+            extra['channels'] = list(dict.fromkeys(extra.get('channels', []) + [rng.choice(names)]))
+            ops.append(dict(op='prune', w='s2', args=extra, history=list(hist)))
+            ops.append(dict(op='prune', w='s2', args={'channels': [n + suffix for n in names[:na]][:1]}, history=list(hist)))
+            ops.append(dict(op='sorted', w='s2', history=list(hist)))
+    # the same coincidence without a history: prune a channel of `l` while another channel holds names of its convention
+    ops.append(dict(op='prune', w='l', args=gen_prune_args(rng, a)))
+    return dict(env=env, ops=ops, tags=dict(sequence='rename-combine-prune', steps=len(env) - 1))
+
+
 def group_text(gi, g):
     """Coq text for one group: its workspaces as top-level definitions, then one vm_compute of all its operations"""
     names = {wid: 'g%d_%s' % (gi, wid) for wid in g['env']}
@@ -1268,6 +1339,7 @@ def run(ctx):
     ncorpus = len(groups)
     n = ctx.n(110, 1500)
     groups += [make_group(rng, ctx.quick) for _ in range(n)]
+    groups += [make_sequence_group(rng) for _ in range(ctx.n(30, 300))]
     nlik = ctx.n(45, 400)
 
     stats = dict(ops=0, combine=0, prune=0, rename=0, sorted=0, lik_evaluated=0, outcomes={}, by_join={}, tags={})
